@@ -248,10 +248,14 @@ WALK_TRACKS = {
     "c14wd": (10 ** 7, [40000000, 40000000, 8000000, 40000000], 0),
     # regular track of a stream with stored *stream defaults* for the event options
     "c14wz": (600, [1200] * 5, 0),
+    # … and one whose stored defaults make the ping events OUT-OF-BAND (a URL can ask for in-band)
+    "c14wy": (600, [1200] * 5, 0),
 }
 WALK_WRITER = {"c14wa": dict(with_tfdt=False), "c14wb": dict(start_number=0, tfdt_version=1),
                "c14wd": dict(start_number=7)}
-STREAM_DEFAULTS = {"c14wz": {"eventTypes": ["ping"], "ping": {"interval": 150, "start": 40, "count": 0, "version": 1,
+STREAM_DEFAULTS = {"c14wy": {"eventTypes": ["ping"], "ping": {"interval": 150, "start": 40, "count": 6, "inband": False,
+                                                              "timescale": 100, "duration": 33}},
+                   "c14wz": {"eventTypes": ["ping"], "ping": {"interval": 150, "start": 40, "count": 0, "version": 1,
                                                               "timescale": 100, "duration": 33}}}
 # (a non-zero first decode time is not used: ledger C02 D10-nonzero-first-decode-time)
 
@@ -287,10 +291,13 @@ def walk_urls(case):
     import appboot
     import segwalk
     _, c = app()
-    q = query(case["event"], case["sched"]) + f"&depth={case['depth']}"
+    mode = case.get("mode", "live")
+    q = case["query"] if "query" in case else query(case["event"], case["sched"])
+    if mode == "live":
+        q += f"&depth={case['depth']}"
     if case["addressing"] == "time":
         q += "&timeline=1"
-    url = f"http://localhost/dash/live/{case['stream']}/hand_made.mpd?{q}"
+    url = f"http://localhost/dash/{mode}/{case['stream']}/hand_made.mpd?{q.lstrip('&')}"
     with appboot.Clock(case["clock"]):
         r = segwalk.get(c, url)
     if r.status_code != 200:
@@ -306,11 +313,19 @@ def walk_urls(case):
             return 200, r.get_data(as_text=True), rep.timescale, []
         for t, d in rep.timeline:
             out.append(((t, d), rep.media_url(time=t)))
-    else:
+    elif mode == "live":
         now_us = int(_parse_iso(case["clock"]).timestamp() * 1_000_000)
         for n in segwalk.number_window(mpd, rep, now_us):
             out.append((None, rep.media_url(number=n)))
-    out = out[1:-1][-case.get("max_segments", 40):]
+    else:
+        # static presentation: numbers startNumber … covering the Period duration
+        total = mpd.mpd_duration_us * rep.timescale
+        count = -(-total // (rep.duration * 1_000_000))
+        for n in range(rep.start_number, rep.start_number + count):
+            out.append((None, rep.media_url(number=n)))
+    if mode == "live":
+        out = out[1:-1]           # window edges
+    out = out[-case.get("max_segments", 40):]
     return 200, r.get_data(as_text=True), rep.timescale, out
 
 
@@ -319,9 +334,9 @@ def fetch_walk(case) -> dict:
     import segwalk
     _, c = app()
     ensure_walk_streams()
-    st, _txt, rep_ts, items = walk_urls(case)
-    out = {"manifest_status": st, "rep_timescale": rep_ts, "listed": [i for i, _ in items], "status": [],
-           "segments": [], "urls": [u for _, u in items]}
+    st, txt, rep_ts, items = walk_urls(case)
+    out = {"manifest_status": st, "manifest": txt, "rep_timescale": rep_ts, "listed": [i for i, _ in items],
+           "status": [], "segments": [], "urls": [u for _, u in items]}
     with appboot.Clock(case["clock"]):
         for _, u in items:
             r = segwalk.get(c, u)
@@ -344,9 +359,33 @@ def walk_oracle(case, f) -> list:
         run = [list(x) for x in f["listed"]]
     else:
         run = [[s["tfdt"], s["trun_duration"]] for s in f["segments"]]
-    ec = {"event": case["event"], "mode": "live", "sched": case["sched"], "rep_timescale": f["rep_timescale"],
-          "run": run}
-    return E.oracle_run(ec, [s["emsg"] for s in f["segments"]])
+    sched = case["sched"]
+    scheme = E.PING_SCHEME if case["event"] == "ping" else E.SCTE_SCHEME
+    # BOTH carriers of the schedule are read: the Event elements of the manifest and the emsg boxes of
+    # the segments its media URLs lead to; every event must be delivered exactly once in total
+    listed_events = [e for _attrs, evs in manifest_events(f["manifest"], scheme) for e in evs]
+    boxes = [[b for b in s["emsg"] if b["scheme"] == scheme] for s in f["segments"]]
+    foreign = sorted({b["scheme"] for s in f["segments"] for b in s["emsg"] if b["scheme"] != scheme})
+    fails = []
+    if foreign:
+        fails.append(f"emsg boxes of schemes that were not requested: {foreign}")
+    if sched["inband"]:
+        if listed_events:
+            fails.append(f"in-band schedule is also listed in the manifest ({len(listed_events)} Event elements): "
+                         "delivered twice")
+        ec = {"event": case["event"], "mode": case.get("mode", "live"), "sched": sched,
+              "rep_timescale": f["rep_timescale"], "run": run}
+        return fails + E.oracle_run(ec, boxes)
+    carried = [b["id"] for bs in boxes for b in bs]
+    if carried:
+        in_manifest = sorted({i for i, _t, _d, _x in listed_events} & set(carried))
+        fails.append(f"out-of-band schedule: the segments the manifest's own media URLs lead to carry emsg boxes "
+                     f"(ids {carried[:8]}{'…' if len(carried) > 8 else ''}); ids {in_manifest[:8]} are also listed "
+                     "as Event elements: delivered twice")
+    if sched["count"] > 0:
+        import props.c14 as P
+        fails += P.oob_oracle(case["event"], sched, listed_events)
+    return fails
 
 
 def gen_walk_case(rng, stream: str | None = None, addressing: str | None = None):
@@ -377,6 +416,9 @@ def gen_walk_case(rng, stream: str | None = None, addressing: str | None = None)
              version=1 if event == "scte35" else rng.choice([0, 1]), inband=True)
     if event == "scte35":
         s["program_id"] = 1620
+    if rng.random() < .2:
+        # out-of-band: listed in the manifest (count > 0, bounded), the walked segments must stay empty
+        s.update(inband=False, count=rng.randrange(1, 40))
     return {"kind": "walk", "stream": name, "clock": clock, "addressing": addressing,
             "event": event, "sched": s, "depth": depth, "max_segments": 40}
 
@@ -384,6 +426,7 @@ def gen_walk_case(rng, stream: str | None = None, addressing: str | None = None)
 def _walk_case(ch, case, lines, jobs):
     f = fetch_walk(case)
     ch.count(f"walk:{case['addressing']}:{case['stream']}")
+    ch.count(f"walk carriers:{case.get('mode', 'live')}:{'in-band' if case['sched']['inband'] else 'out-of-band'}")
     fails = walk_oracle(case, f)
     if fails:
         ch.oracle_failures.append({"channel": "events_e2e", "case": case, "failures": fails[:4]})
@@ -406,6 +449,11 @@ def _walk_case(ch, case, lines, jobs):
     impl = ";".join("+".join(f"{b['id']},{o(b['delta'])},{o(b['pt'])}" for b in s["emsg"]) or "-" for s in segs)
     lines.append(E.driver_line(ec))
     jobs.append((case, "boxes per segment (manifest walk)", impl))
+    scheme = E.PING_SCHEME if case["event"] == "ping" else E.SCTE_SCHEME
+    evs = [e for _a, es in manifest_events(f["manifest"], scheme) for e in es]
+    sc = case["sched"]
+    lines.append(f"oob {sc['start']} {sc['interval']} {sc['count']} {sc['duration']} {1 if sc['inband'] else 0}")
+    jobs.append((case, "EventStream events (manifest walk)", ";".join(f"{i},{t},{d}" for i, t, d, _ in evs) or "-"))
     ch.sample({"case": case, "listed": f["listed"][:3], "boxes": impl[:100]}, limit=2)
 
 
@@ -510,6 +558,45 @@ def grid_cases(rng):
                                                      version=1, inband=True, program_id=0)))
     out.append({"kind": "manifest", "mode": "vod", "clock": CLOCKS[0], "event": "ping",
                 "sched": dict(start=0, interval=1, count=10000, duration=0, timescale=100, version=0, inband=False)})
+    return out
+
+
+def carrier_grid():
+    """fixed grid: event type x inband in {1, 0} x vod / live x $Time$ / $Number$ on regular tracks, walked
+    through the manifest's own media URLs and its EventStream elements (both carriers counted), plus the
+    stream whose stored defaults are out-of-band: as stored, and with in-band requested in the URL"""
+    out = []
+    i = 0
+    for event in ("ping", "scte35"):
+        for inband in (True, False):
+            for mode in ("vod", "live"):
+                for addressing in ("time", "number"):
+                    stream, rep_ts, seg = [("bbb", 240, 960), ("c14w0", 600, 1200), ("c14w9", 30000, 50050)][i % 3]
+                    clock = CLOCKS[i % len(CLOCKS)]
+                    ts = [100, 1000, 90000][i % 3]
+                    seg_ticks = seg * ts // rep_ts
+                    interval = max(1, seg_ticks * [2, 3, 5][i % 3] // 4)
+                    if mode == "vod":
+                        start = i % 4
+                    else:
+                        el = int((_parse_iso(clock) - _parse_iso(live_start(clock))).total_seconds())
+                        start = max(0, (el - 50) * ts + i)
+                    s = dict(start=start, interval=interval, count=0 if inband and i % 2 else 9, duration=200,
+                             timescale=ts, version=1 if event == "scte35" else (i // 4) % 2, inband=inband)
+                    if event == "scte35":
+                        s["program_id"] = 1620
+                    out.append({"kind": "walk", "mode": mode, "stream": stream, "clock": clock,
+                                "addressing": addressing, "event": event, "sched": s, "depth": 60, "max_segments": 40})
+                    i += 1
+    d = dict(PING_DEFAULT, **STREAM_DEFAULTS["c14wy"]["ping"])
+    for mode in ("vod", "live"):
+        # stored defaults: out-of-band; nothing about events in the URL at all
+        out.append({"kind": "walk", "mode": mode, "stream": "c14wy", "clock": CLOCKS[0], "addressing": "number",
+                    "event": "ping", "sched": dict(d), "query": "", "depth": 60, "max_segments": 40})
+        # stored defaults out-of-band, the request asks for in-band: the manifest's media URLs must say so
+        out.append({"kind": "walk", "mode": mode, "stream": "c14wy", "clock": CLOCKS[3], "addressing": "time",
+                    "event": "ping", "sched": dict(d, inband=True, count=0), "query": "ping__inband=1&ping__count=0",
+                    "depth": 60, "max_segments": 40})
     return out
 
 
@@ -629,6 +716,7 @@ def run(ctx) -> Channel:
     cases += [gen_case(rng, ctx.thorough) for _ in range(ctx.scale(45, 700))]
     cases += [gen_manifest_case(rng) for _ in range(ctx.scale(25, 300))]
     wrng = ctx.rng("e2e-walk")
+    cases += carrier_grid()
     cases += [gen_walk_case(wrng, stream=n) for n in sorted(WALK_TRACKS) if not regular(n)]
     cases += [gen_walk_case(wrng, stream=n, addressing="number") for n in ("bbb", "c14w0", "c14w9", "c14wz")]
     cases += [gen_walk_case(wrng) for _ in range(ctx.scale(10, 160))]
